@@ -6,7 +6,7 @@
    Model: Conc/Sched.v - threads ask for a lock, run a segment, ask for the next one; a state
    is DEADLOCKED when some thread is unfinished and no unfinished thread can be granted its
    request (RWMutex exclusion; a thread's own holds count, sync.RWMutex is not re-entrant). *)
-From Avfs Require Import Base Sched MemConc Lin ExclMkdir DeadlockFree Witness LockProg.
+From Avfs Require Import Base Sched MemConc Lin ExclMkdir DeadlockFree Traces Witness LockProg.
 
 (* ---- concurrent ------------------------------------------------------------------------- *)
 
@@ -43,6 +43,31 @@ Proof.
   intros h0 dirs nm d create rnds sched Hres Hdir Habs.
   exact (@excl_no_deadlock h0 dirs nm d (if create then KFile 1 else KDir []) Hres Hdir Habs create eq_refl rnds sched).
 Qed.
+
+(* C07_traces: the lock traces of the Rename-free calls are ascending.  For ANY programs made of Mkdir,
+   OpenFile(O_CREATE|O_EXCL), Remove, Link, Symlink, MkdirAll, RemoveAll, CreateTemp, MkdirTemp ([rfree]: no
+   Rename), any number of threads, any name streams, from any heap that is ordered ([hord]: the root
+   is a directory, every entry points to an existing node, and to a younger one when it is a
+   directory - true of every tree built without moving directories), in every state reached by ANY
+   schedule every thread asks for a lock above all the locks it holds, in the order
+   [rank] = directories by node id, then every other node. *)
+Theorem C07_traces : forall (h0 : cheap) (progs : list (list qcall)) (rnds : list (list cname)) (sched : list nat),
+  hord h0 -> Forall rfree progs ->
+  let c := mc_run sched (mc_init h0 progs rnds) in
+  ascending mc_request mc_holds (rank (c_sh c)) c /\ finished_hold_nothing mc_request mc_holds c.
+Proof. intros h0 progs rnds sched Ho Hf. exact (traces_ascending rnds sched Ho Hf). Qed.
+
+(* ... hence (C07_order) no schedule of Rename-free programs reaches a deadlock *)
+Theorem C07_rename_free_never_deadlocks : forall (h0 : cheap) (progs : list (list qcall)) (rnds : list (list cname)) (sched : list nat),
+  hord h0 -> Forall rfree progs ->
+  mc_deadlocked (mc_run sched (mc_init h0 progs rnds)) = false.
+Proof. intros h0 progs rnds sched Ho Hf. exact (traces_no_deadlock rnds sched Ho Hf). Qed.
+
+(* non-vacuity: the harness tree is ordered; a Rename-free program with nested locking *)
+Example C07_traces_example :
+  hord tree0 /\
+  Forall rfree [[QRemoveAll [n_a]; QMkdirAll [n_b; n_x; n_y]]; [QLink [n_a; n_f] [n_b; n_x]; QRemove [n_a; n_d]]; [QCreateTemp [n_a; n_d] n_tmp]].
+Proof. split; [apply hordb_sound; vm_compute; reflexivity|repeat constructor]. Qed.
 
 (* REFUTED: two opposite cross-directory Renames (each locks its old parent, then its new
    parent) reach, under the given schedule, a state where both wait for ever *)
